@@ -15,7 +15,7 @@ ASSUMPTIONS = [
     "X25519 is replaced by a contract stub returning an arbitrary shared secret (curve arithmetic is trusted base, see C05)",
     "XSalsa20/ChaCha20 (RustCrypto) run for real with symbolic keys; their internals are trusted base",
 ]
-OUTSIDE = ["message lengths other than the listed literals", "object API (returns only Result; nothing else is caller-visible)"]
+OUTSIDE = ["message lengths other than the listed literals (quick: <= 17 bytes; thorough: <= 65 bytes plus one 1100-byte instance of secretbox_open_detached, ~15 min)", "object API (returns only Result; nothing else is caller-visible)"]
 
 
 def harness_text(site, name):
@@ -54,6 +54,26 @@ fn %(name)s() {
            n=n, out=site["out"], orig=site["orig"], extra=extra)
 
 
+def large_suite(tier):
+    """buffers beyond any internal chunk size a rewrite might introduce (1 KiB, 4 KiB): the in-place secretbox open all
+    box / secretbox entry points funnel into, plus the copying form; own suite because the MAC transcript log is enlarged"""
+    src = rs.prelude() + rs.load("aead.rs").replace("pub const MAC_CAP: usize = 384;", "pub const MAC_CAP: usize = 4400;") + aead.USES
+    hs = []
+    for n in [1100]:
+        for site in aead.sites(n):
+            if site["name"] != "secretbox_open_detached":     # the in-place combined form ran out of memory (20 GB) at this size
+                continue
+            name = "c17_%s_n%d" % (site["name"], n)
+            src += harness_text(site, name)
+            hs.append(Harness(name, unwind=n + 40, timeout=3000, mem_gb=20, site=site["name"],
+                              desc="%s, message length %d (beyond 1 KiB / 4 KiB chunk sizes): symbolic key/nonce/ciphertext/tag/previous contents, ideal MAC output != presented tag" % (site["name"], n),
+                              bounds={"message_len": n}))
+    s = Suite("C17", src, hs, stubs=rs.stub_names(("barrier", "fmt") + rs.MAC),
+              functions=["classic::crypto_secretbox_impl::crypto_secretbox_open_detached_inplace", "classic::crypto_secretbox::{open_detached,open_easy_inplace}"], assumptions=ASSUMPTIONS)
+    s.tag = "e1-large"
+    return s
+
+
 def suites(tier, seed):
     src = rs.prelude() + rs.load("aead.rs") + aead.USES
     hs = []
@@ -77,7 +97,7 @@ fn c17_twin_encrypt_changes_buffer() {
 }
 '''
     hs.append(Harness("c17_twin_encrypt_changes_buffer", unwind=70, timeout=900, expect="fail", site="twin", desc="vacuity twin"))
-    return [Suite("C17", src, hs, stubs=sorted(stubs),
+    return ([large_suite(tier)] if tier != "quick" else []) + [Suite("C17", src, hs, stubs=sorted(stubs),
                   functions=["classic::crypto_secretbox_impl::crypto_secretbox_open_detached_inplace", "classic::crypto_secretbox::{open_detached,open_easy,open_easy_inplace}",
                              "classic::crypto_box::{open_detached,open_detached_inplace,open_easy,open_easy_inplace,open_*_afternm*,seal_open}",
                              "classic::crypto_secretstream_xchacha20poly1305::crypto_secretstream_xchacha20poly1305_pull"],
